@@ -53,11 +53,30 @@ def tla_value(v):
     raise ValueError(v)
 
 
-def write_cfg(path, consts, init="MCInit", next_="NextP", invariants=(), view="View", extra=""):
-    with open(path, "w") as f:
-        f.write("CONSTANTS\n  ScenTab <- MCScenTab\n")
+MC_DEFAULTS = dict(Family="conc", Kinds={"single"}, ApisA={"lock"}, ApisB={"lock"}, UnivA={1}, UnivB={1},
+                   MaxLenA=1, MaxLenB=1, Policies={"RP"}, NT=2, Keys={"owned"}, ConcBodies={"acc"},
+                   SeqColls={1}, SeqApis={"lock"}, SeqRels={"drop"}, SeqKeys={"owned"}, SeqBodies={"acc"},
+                   SeqKeyOps=set(), SeqTopOps=set(), SeqDbgColls=set(), SeqMaxLen=1, SeqHolders={("none", 0)})
+
+
+def write_cfg(path, consts, init="MCInit", next_="NextP", invariants=(), view="View", extra="", known=()):
+    """Writes <path>.cfg and the root module <path>.tla (EXTENDS MC) that defines the constants'
+    values (a TLC cfg file cannot express tuples); returns the module file."""
+    consts = dict(MC_DEFAULTS, **consts)
+    base = os.path.splitext(path)[0]
+    mod = re.sub(r"[^A-Za-z0-9_]", "_", os.path.basename(base))
+    mod = "P_" + mod
+    tla = os.path.join(os.path.dirname(path), mod + ".tla")
+    with open(tla, "w") as f:
+        f.write("---- MODULE %s ----\nEXTENDS MC\n" % mod)
+        f.write("c_KnownSigs == %s\n" % tla_value(set(known)))
         for k, v in consts.items():
-            f.write("  %s = %s\n" % (k, tla_value(v)))
+            f.write("c_%s == %s\n" % (k, tla_value(v)))
+        f.write("====\n")
+    with open(path, "w") as f:
+        f.write("CONSTANTS\n  ScenTab <- MCScenTab\n  KnownSigs <- c_KnownSigs\n")
+        for k in consts:
+            f.write("  %s <- c_%s\n" % (k, k))
         f.write("INIT %s\nNEXT %s\n" % (init, next_))
         if view:
             f.write("VIEW %s\n" % view)
@@ -65,19 +84,21 @@ def write_cfg(path, consts, init="MCInit", next_="NextP", invariants=(), view="V
             f.write("INVARIANT %s\n" % inv)
         f.write("CHECK_DEADLOCK FALSE\n")
         f.write(extra)
+    return tla
 
 
 STAT_RE = re.compile(r"(\d+) states generated, (\d+) distinct states found, (\d+) states left on queue")
 DEPTH_RE = re.compile(r"The depth of the complete state graph search is (\d+)")
 SCEN_RE = re.compile(r'^<<"SCEN", (\d+), (".*")>>\s*$')
 EDGE_RE = re.compile(r'^<<"E", (\d+), <<(.*)>>>>\s*$')
+MV_RE = re.compile(r'^<<"MV", (\d+), "([^"]*)", "([^"]*)", <<(.*)>>>>\s*$')
 
 
 def run_tlc(module, cfg, outdir, tag, workers=1, xmx="3g", timeout=1800, env_extra=None, simulate=None,
-            java_opts=""):
+            java_opts="", cwd=None):
     meta = os.path.join(outdir, "meta-" + tag)
     out = os.path.join(outdir, "tlc-" + tag + ".out")
-    cmd = ["java", "-XX:+UseParallelGC", "-Xmx" + xmx, "-Xss64m"] + java_opts.split() + \
+    cmd = ["java", "-XX:+UseParallelGC", "-Xmx" + xmx, "-Xss64m", "-DTLA-Library=" + SPEC] + java_opts.split() + \
           ["-cp", JAR_CP, "tlc2.TLC", "-workers", str(workers), "-metadir", meta, "-cleanup",
            "-noGenerateSpecTE", "-config", cfg]
     if simulate:
@@ -89,7 +110,7 @@ def run_tlc(module, cfg, outdir, tag, workers=1, xmx="3g", timeout=1800, env_ext
         env.update(env_extra)
     with open(out, "w") as f:
         try:
-            p = subprocess.run(cmd, cwd=SPEC, stdout=f, stderr=subprocess.STDOUT, env=env, timeout=timeout)
+            p = subprocess.run(cmd, cwd=cwd or SPEC, stdout=f, stderr=subprocess.STDOUT, env=env, timeout=timeout)
         except subprocess.TimeoutExpired:
             raise ToolError("TLC timed out (%s)" % tag)
     shutil.rmtree(meta, ignore_errors=True)
@@ -98,7 +119,7 @@ def run_tlc(module, cfg, outdir, tag, workers=1, xmx="3g", timeout=1800, env_ext
 
 def parse_mc(outfile):
     """-> dict(states_generated, distinct, depth, scen={id: raw}, edges=[(sid, hist)], error)"""
-    r = dict(generated=0, distinct=0, depth=0, scen={}, edges=[], error=None, violated=None)
+    r = dict(generated=0, distinct=0, depth=0, scen={}, edges=[], error=None, violated=None, mv=[])
     with open(outfile, errors="replace") as f:
         for line in f:
             if line.startswith('<<"E"'):
@@ -106,6 +127,9 @@ def parse_mc(outfile):
                 if m:
                     h = [int(x) for x in m.group(2).split(",") if x.strip()]
                     r["edges"].append((int(m.group(1)), h))
+            elif line.startswith('"MV '):
+                j = json.loads(json.loads(line)[3:])
+                r["mv"].append((j["sid"], j["p"], j["s"], list(j["h"])))
             elif line.startswith('<<"SCEN"'):
                 m = SCEN_RE.match(line)
                 if m:
@@ -127,8 +151,8 @@ def parse_mc(outfile):
     return r
 
 
-def model_check(module, consts, outdir, tag, parts, invariants=("NoViolation", "NotStuck", "TablesAgree"),
-                edges=True, timeout=1800, xmx="3g"):
+def model_check(module, consts, outdir, tag, parts, invariants=("TablesAgree",),
+                edges=True, timeout=1800, xmx="3g", known=()):
     """Run `parts` TLC processes (one worker each, so that no edge line is lost),
     process k exploring the scenarios i with i % parts == k."""
     os.makedirs(outdir, exist_ok=True)
@@ -136,8 +160,8 @@ def model_check(module, consts, outdir, tag, parts, invariants=("NoViolation", "
     def one(k):
         c = dict(consts, PartK=k, PartN=parts)
         cfg = os.path.join(outdir, "mc-%s-%d.cfg" % (tag, k))
-        write_cfg(cfg, c, next_="NextP" if edges else "Next", invariants=invariants)
-        rc, out = run_tlc(module, cfg, outdir, "%s-%d" % (tag, k), workers=1, xmx=xmx, timeout=timeout)
+        root = write_cfg(cfg, c, next_="NextP" if edges else "Next", invariants=invariants, known=known)
+        rc, out = run_tlc(root, cfg, outdir, "%s-%d" % (tag, k), workers=1, xmx=xmx, timeout=timeout, cwd=outdir)
         res = parse_mc(out)
         res["rc"] = rc
         res["out"] = out
@@ -145,13 +169,14 @@ def model_check(module, consts, outdir, tag, parts, invariants=("NoViolation", "
 
     with ThreadPoolExecutor(max_workers=min(parts, NCPU)) as ex:
         results = list(ex.map(one, range(parts)))
-    tot = dict(generated=0, distinct=0, depth=0, scen={}, edges=[], errors=[], violated=[], outs=[])
+    tot = dict(generated=0, distinct=0, depth=0, scen={}, edges=[], errors=[], violated=[], outs=[], mv=[])
     for r in results:
         tot["generated"] += r["generated"]
         tot["distinct"] += r["distinct"]
         tot["depth"] = max(tot["depth"], r["depth"])
         tot["scen"].update(r["scen"])
         tot["edges"] += r["edges"]
+        tot["mv"] += r["mv"]
         tot["outs"].append(r["out"])
         if r["violated"]:
             tot["violated"].append((r["violated"], r["out"]))
@@ -196,9 +221,9 @@ def validate_trace(trace, outdir, tag, timeout=1200):
     with open(out, errors="replace") as f:
         txt = f.read()
     for line in txt.splitlines():
-        m = VIOL_RE.match(line)
-        if m:
-            res["viol"].append((m.group(1), m.group(2), int(m.group(3)), int(m.group(4))))
+        if line.startswith('"VIOL '):
+            j = json.loads(json.loads(line)[5:])
+            res["viol"].append((j["p"], j["s"], j["x"], j["ln"]))
             continue
         m = DRIFT_RE.match(line)
         if m:
@@ -273,6 +298,12 @@ def load_known():
     if not os.path.exists(p):
         return []
     return json.load(open(p))
+
+
+def known_mc_sigs():
+    """signatures "<prop>|<sig>" of the known findings: the model (which reproduces the code
+    as it is) is allowed to exhibit exactly these"""
+    return sorted({"%s|%s" % (k["property"], k["sig"]) for k in load_known() if k.get("status") == "known"})
 
 
 def repo_tree_hash():
